@@ -66,6 +66,165 @@ def _s(e):
 
 # ---------------------------------------------------------------------------
 
+_LIST_READERS = ('min', 'max', 'len', 'sorted', 'list', 'tuple')
+
+
+def _per_pass_list(fi, lp, name, depth=3):
+    """Element expression (an AST evaluated in the body of the loop `lp`) of
+    the local list `name` of `fi` when that list holds exactly one entry for
+    every pass of `lp`, in order; None otherwise.  Two ways to build one:
+    (a) bound once to `[]` ahead of the loop and filled by one
+    `name.append(E)` that lies on every path through the body of `lp` and on
+    no path twice (CFG); (b) bound once, after the loop, to a comprehension
+    `[F for v in L]` -- one generator, no condition, L itself such a list:
+    the entry is F with `v` standing for L's entry.  Anything else that could
+    change the list (another method call, a store into it, a re-binding, the
+    list handed to an unknown function) disqualifies it."""
+    if depth <= 0:
+        return None
+    fn = fi.node
+    defs = U.assigns_of(fn, name)
+    if len(defs) != 1 or not (isinstance(defs[0], ast.Assign) and len(
+            defs[0].targets) == 1 and isinstance(defs[0].targets[0], ast.Name)
+            and any(defs[0] is st for st in fn.body)):
+        return None
+    d = defs[0]
+    appends = []
+    inner = {id(n) for n in walk_no_nested(fn)}
+    if any(isinstance(n, ast.Name) and n.id == name and id(n) not in inner
+           for n in ast.walk(fn)):
+        return None                     # touched by a nested def / lambda
+    for n in walk_no_nested(fn):
+        if not (isinstance(n, ast.Name) and n.id == name):
+            continue
+        if isinstance(n.ctx, ast.Store):
+            if n is not d.targets[0]:
+                return None
+            continue
+        p = parent(n)
+        if isinstance(p, ast.Attribute) and p.value is n:
+            c = parent(p)
+            if not (isinstance(c, ast.Call) and c.func is p):
+                return None
+            if p.attr == 'append' and len(c.args) == 1 and not c.keywords:
+                appends.append(c)
+            elif p.attr not in ('index', 'count'):
+                return None
+        elif isinstance(p, ast.Subscript) and p.value is n and isinstance(
+                p.ctx, ast.Load):
+            pass
+        elif isinstance(p, ast.Call) and n in p.args and isinstance(
+                p.func, ast.Name) and p.func.id in _LIST_READERS:
+            pass
+        elif isinstance(p, ast.comprehension) and p.iter is n:
+            pass
+        else:
+            return None
+    v = d.value
+    if isinstance(v, ast.List) and not v.elts:
+        if d.lineno >= lp.lineno or len(appends) != 1:
+            return None
+        g = cfg_of(fi)
+        header = [n for n in g.nodes if n.kind == 'loop' and n.stmt is lp]
+        app = g.node_containing(appends[0])
+        from ..dataflow import _in_body
+        if len(header) != 1 or app is None or not _in_body(app, lp) or \
+                not isinstance(app.stmt, ast.Expr) or \
+                app.stmt.value is not appends[0]:
+            return None
+        first = [s for s in header[0].succ if _in_body(s, lp)]
+        if any((g.path_exists(b, header[0], avoid=[app]) or g.path_exists(
+                b, g.exit, avoid=[app, header[0]])) and b is not app
+               for b in first):
+            return None                 # a pass can go by without the append
+        if g.path_exists(app, app, avoid=header) or g.path_exists(
+                app, g.exit, avoid=header):
+            return None     # appended again in the same pass / loop left
+        return appends[0].args[0]
+    if isinstance(v, ast.ListComp) and len(v.generators) == 1 and not appends:
+        gen = v.generators[0]
+        if gen.ifs or gen.is_async or not isinstance(gen.target, ast.Name) \
+                or not isinstance(gen.iter, ast.Name) or \
+                d.lineno <= (lp.end_lineno or lp.lineno):
+            return None
+        inner = _per_pass_list(fi, lp, gen.iter.id, depth - 1)
+        if inner is None:
+            return None
+        return _project(_put(v.elt, gen.target.id, inner))
+    return None
+
+
+def _put(e, name, repl):
+    """Copy of expression `e` with every read of `name` replaced by `repl`."""
+    class S(ast.NodeTransformer):
+        def visit_Name(self, n):
+            if n.id == name and isinstance(n.ctx, ast.Load):
+                return ast.parse(src(repl), mode='eval').body
+            return n
+    return ast.fix_missing_locations(S().visit(
+        ast.parse(src(e), mode='eval').body))
+
+
+def _project(e):
+    """`(a, b, ...)[k]` with a literal k -> the k-th entry of the display."""
+    class P(ast.NodeTransformer):
+        def visit_Subscript(self, n):
+            self.generic_visit(n)
+            k = const(n.slice)
+            if isinstance(n.value, ast.Tuple) and isinstance(k, int) and \
+                    not isinstance(k, bool) and \
+                    -len(n.value.elts) <= k < len(n.value.elts) and not any(
+                        isinstance(x, ast.Starred) for x in n.value.elts):
+                return n.value.elts[k]
+            return n
+    return P().visit(e)
+
+
+def _min_over_every_region(am, lp):
+    """assembly.calculate_min_dz: the minimum it returns is taken over a list
+    with one entry per axial region (per pass of `lp`), and the entry of a
+    pass is the step requirement -- first result of a region-level
+    `calculate_min_dz` applied to the loop's own region -- bound in that
+    pass on every path."""
+    mins = [st for st in am.node.body if isinstance(st, ast.Assign)
+            and isinstance(st.value, ast.Call) and call_name(st.value) == 'min'
+            and len(st.value.args) == 1 and not st.value.keywords
+            and isinstance(st.value.args[0], ast.Name)]
+    rets = [r for r in walk_no_nested(am.node) if isinstance(r, ast.Return)]
+    if len(mins) != 1 or len(rets) != 1 or not isinstance(
+            lp.target, ast.Name):
+        return False
+    # the minimum is what the function returns as the requirement
+    rv = rets[0].value
+    rv = rv.elts[0] if isinstance(rv, ast.Tuple) and rv.elts else rv
+    tgt = mins[0].targets[0]
+    if not (len(mins[0].targets) == 1 and isinstance(tgt, ast.Name) and
+            isinstance(rv, ast.Name) and rv.id == tgt.id and
+            len(U.assigns_of(am.node, tgt.id)) == 1 and
+            mins[0].lineno > (lp.end_lineno or 0)):
+        return False
+    el = _per_pass_list(am, lp, mins[0].value.args[0].id)
+    if not isinstance(el, ast.Name):
+        return False
+    defs = U.assigns_of(am.node, el.id)
+    if not defs:
+        return False
+    for d in defs:
+        if not (isinstance(d, ast.Assign) and len(d.targets) == 1 and
+                isinstance(d.targets[0], ast.Tuple) and d.targets[0].elts and
+                _s(d.targets[0].elts[0]) == el.id and
+                isinstance(d.value, ast.Call) and
+                (call_name(d.value) or '').endswith('.calculate_min_dz') and
+                d.value.args and _s(d.value.args[0]) == lp.target.id and
+                lp.lineno < d.lineno <= (lp.end_lineno or 0)):
+            return False
+    # bound in the pass before it is appended (not left over from the
+    # region below)
+    from .c13 import _exposed
+    return not any(x.id == el.id for x in _exposed(
+        lp.body, set(am.params) | {lp.target.id}))
+
+
 def r1(ctx):
     repo = ctx.repo
     # returns of the aggregating functions use min
@@ -130,6 +289,11 @@ def r1(ctx):
     apps = find_all('dz.append(tmp_dz)', am.node)
     ok = len(lp) == 1 and len(apps) == 1 and not U.guards(apps[0][0],
                                                           stop=lp[0])
+    if len(lp) == 1:
+        # the same fact on the value: the list the minimum is taken over
+        # holds one entry per pass of the region loop, and that entry is the
+        # requirement computed for the region of that pass
+        ok = _min_over_every_region(am, lp[0])
     ctx.require(ok, 'C04.R1', am, apps[0][0] if apps else am.node,
                 'every axial region of an assembly contributes',
                 key=am.full + ' | all regions')
